@@ -111,6 +111,7 @@ def step(M):
     unpred | notimpl | skip"""
     M.branched = False
     M.ls_syndrome = None
+    M.it_restored = False
     try:
         if M.s['cpsr'] & (1 << 24):
             raise Skip('Jazelle / ThumbEE state is not modelled')
@@ -146,7 +147,7 @@ def step(M):
             ex(M, ops)
         if not M.branched:
             M.s['R.PC'] = (M.s['R.PC'] + M.ilen) & M32
-        if was_in_it:
+        if was_in_it and not M.it_restored:
             M.it_advance()
         return 'ok', row.name
     except Undef as e:
